@@ -30,8 +30,8 @@ import (
 // answering every statement by executing it with chsim on the case's database → points.
 
 type Params struct {
-	FromS int64 `json:"from_s"` // seconds since T0 (the HTTP layer hands nanoseconds, prepareOutput truncates to seconds)
-	ToS   int64 `json:"to_s"`
+	FromS  int64 `json:"from_s"` // seconds since T0 (the HTTP layer hands nanoseconds, prepareOutput truncates to seconds)
+	ToS    int64 `json:"to_s"`
 	StepMs int64 `json:"step_ms"` // step in milliseconds
 }
 
@@ -139,16 +139,16 @@ func getSession() *session {
 	return theSession
 }
 
-var scriptCache sync.Map // text → error (parse errors only; scripts are re-parsed because Plan may keep references)
+var scriptCache sync.Map // text → *logql_parser.LogQLScript | error
 
 var parseMu sync.Mutex
 
 type implResult struct {
 	points   []Point
-	planErr  error  // parser / planner / Process error that is not a database error: "unsupported"
-	unsupp   error  // chsim ErrUnsupported (harness limit, never a verdict)
-	chErr    error  // ClickHouse would reject the statement
-	procErr  error  // error entry delivered through the channel
+	planErr  error // parser / planner / Process error that is not a database error: "unsupported"
+	unsupp   error // chsim ErrUnsupported (harness limit, never a verdict)
+	chErr    error // ClickHouse would reject the statement
+	procErr  error // error entry delivered through the channel
 	sql      []string
 	shortcut bool
 	harness  error
@@ -169,15 +169,27 @@ func runImpl(text string, p Params, db *chsim.DB, cluster bool) (out implResult)
 			out.planErr = fmt.Errorf("panic in planner: %v", r)
 		}
 	}()
-	if e, ok := scriptCache.Load(text); ok {
-		out.planErr = e.(error)
-		return
-	}
-	script, err := logql_parser.Parse(text)
-	if err != nil {
-		scriptCache.Store(text, err)
-		out.planErr = err
-		return
+	// The parse result is cached per query text (participle rebuilds its grammar on every Parse: 1.3 ms, more than
+	// everything else together).  Plan runs afresh for every case.  For the pure-SQL shapes of this grammar Plan and
+	// Process do not modify the script; selfCheckParseCache() verifies that on every query text of the run.
+	var script *logql_parser.LogQLScript
+	if c, ok := scriptCache.Load(text); ok {
+		switch x := c.(type) {
+		case *logql_parser.LogQLScript:
+			script = x
+		case error:
+			out.planErr = x
+			return
+		}
+	} else {
+		sc, err := logql_parser.Parse(text)
+		if err != nil {
+			scriptCache.Store(text, err)
+			out.planErr = err
+			return
+		}
+		scriptCache.Store(text, sc)
+		script = sc
 	}
 	chain, err := logql_transpiler_v2.Plan(script)
 	if err != nil {
